@@ -60,7 +60,12 @@ func Generate(seed uint64, opt core.Options) (*Config, []Op) {
 	for len(ops) < n {
 		c := rng.Intn(len(chains))
 		ch := chains[c]
-		switch rng.Pick([]int{20, 60, 6, 6, 0}) {
+		switch rng.Pick([]int{20, 60, 6, 6, 6}) {
+		case 4:
+			// a pubkey this history already holds at a lower index, offered again at or beyond the next index
+			if len(ch.reg) > 0 {
+				ops = append(ops, Op{K: "addlower", C: c, I: rng.Intn(3), P: rng.Intn(len(ch.reg))})
+			}
 		case 0:
 			if len(chains) < 8 {
 				ops = append(ops, Op{K: "fork", C: c})
@@ -272,6 +277,33 @@ func Execute(cfg *Config, ops []Op, opt core.Options) *core.Result {
 			}
 			if err := x.add(c, op.I, c.reg[op.I]); err != nil {
 				stop = true
+			}
+		case "addlower":
+			if op.P >= len(c.reg) {
+				res.Stat("skipped_out_of_domain", 1)
+				continue
+			}
+			{
+				h := c.h
+				L := x.model[h]
+				idx := len(L) + op.I
+				p := c.reg[op.P]
+				nh, err := h.AddValidator(common.ValidatorIndex(idx), pub(p))
+				res.Stat("adds_of_known_lower_key", 1)
+				if op.I > 0 && err == nil {
+					x.viol("AddValidator/beyond-next-accepted", fmt.Sprintf("index %d (next is %d) with a pubkey known at a lower index accepted", idx, len(L)))
+					stop = true
+				} else if err == nil {
+					// success must mean: the returned handle now maps the index to the pubkey
+					cp, ok := nh.Pubkey(common.ValidatorIndex(idx))
+					if !ok || cp.Compressed != pub(p) {
+						x.viol("AddValidator/success-without-entry", fmt.Sprintf("AddValidator(%d, pubkey %d known at index %d) reported success, but the returned handle has no such entry", idx, p, indexOf(L, p)))
+						stop = true
+					} else if nh == h {
+						x.viol("AddValidator/duplicate-key-appended-in-place", fmt.Sprintf("pubkey %d now sits at two indices of one handle", p))
+						stop = true
+					}
+				}
 			}
 		case "addbeyond":
 			if !seen[op.P] {
